@@ -172,6 +172,14 @@ func runC39(c *Ctx) {
 				2: "call:iface:*AccountKeeper.GetAccount(_, _, extract:0(call:sdk.AccAddressFromBech32(field:Address(extract:0(call:" + gmpK + ".getOrCreateICS27Account(param#0, param#1, _))))))",
 				3: "field:Payload(param#2)"}})
 	}
+	// ---- module OnRecvPacket(im#0, ctx#1, sourceClient#2, destinationClient#3, seq#4, payload#5, relayer#6):
+	// the keeper gets this chain's own (destination) client id and the data decoded from this payload
+	if rr := c.Run(which, "apps/27-gmp.IBCModule.OnRecvPacket"); rr != nil {
+		c.Check(which, "C39/recv/module", c.Calls(rr, gmpK+".OnRecvPacket"), 1, nil, nil,
+			Req{Name: "destination-client-and-decoded-payload", Args: map[int]string{1: "param#1", 3: "param#3",
+				2: "~or(ref(extract:0(call:" + gmpT + ".UnmarshalPacketData(field:Value(param#5), field:Version(param#5), field:Encoding(param#5)))), extract:0(call:" + gmpT + ".UnmarshalPacketData(field:Value(param#5), field:Version(param#5), field:Encoding(param#5))))"},
+				Any: all("eq(field:SourcePort(param#5), \"gmpport\")", "eq(field:DestinationPort(param#5), \"gmpport\")")})
+	}
 	// ---- OnSendPacket(im#0, ctx#1, src#2, dst#3, seq#4, payload#5, signer#6)
 	if rr := c.Run(which, "apps/27-gmp.IBCModule.OnSendPacket"); rr != nil {
 		c.CheckRets(which, "C39/send", rr, NilErr(e), 1, nil,
